@@ -12,9 +12,11 @@ class ParentCase:
         it = self.c["bit"][j - 1]
         if it == "ren":
             return f"q{j}"
-        return f"c{j}" if (self.kind == "nested" and j == self.nb) else f"b{j}"
+        return f"c{j}" if (self.kind in ("nested", "nested3") and j == self.nb) else f"b{j}"
 
     def bpath(self, j):
+        if self.kind == "nested3" and j == self.nb:
+            return f"base.inner.deep.c{j}"
         return f"base.inner.c{j}" if (self.kind == "nested" and j == self.nb) else f"base.b{j}"
 
     def d_leaves(self):
@@ -28,7 +30,7 @@ class ParentCase:
         dl = self.d_leaves()
         out = ["#[derive(Clone, Default)] pub struct D { " + " ".join(f"pub {l}: V," for l in dl) + " }",
                "#[derive(Clone, Default)] pub struct DX { " + " ".join(f"pub {l}: V," for l in dl) + " pub extra: V, }"]
-        inner = self.kind == "nested"
+        inner = self.kind in ("nested", "nested3")
         nbase = self.nb - 1 if inner else self.nb
         for fall, bn in ((False, "Base"), (True, "Basef")):
             bf = []
@@ -47,7 +49,10 @@ class ParentCase:
             else:
                 hdr = "#[derive(Clone, Default)]"
             out.append(f"{hdr} pub struct {bn} {{ {' '.join(bf)} }}")
-        if inner:
+        if self.kind == "nested3":
+            out.append("#[derive(Clone, Default)] pub struct Inner { pub deep: Deep, }")
+            out.append(f"#[derive(Clone, Default)] pub struct Deep {{ pub c{self.nb}: V, }}")
+        elif inner:
             out.append(f"#[derive(Clone, Default)] pub struct Inner {{ pub c{self.nb}: V, }}")
         return out
 
@@ -56,7 +61,7 @@ class ParentCase:
         if self.kind == "bare":
             return "#[parent]"
         items = []
-        inner = self.kind == "nested"
+        inner = self.kind in ("nested", "nested3")
         nbase = self.nb - 1 if inner else self.nb
         for j in range(1, nbase + 1):
             it = c["bit"][j - 1]
@@ -64,7 +69,12 @@ class ParentCase:
         if inner:
             j = self.nb
             it = c["bit"][j - 1]
-            items.append("[parent(" + {"none": f"c{j}", "ren": f"[map(q{j})] c{j}", "kexpr": f"[owned_into(tg({200 + j}, ~))] [ref_into(tg({300 + j}, ~))] c{j}"}[it] + ")] inner: Inner")
+            leaf = {"none": f"c{j}", "ren": f"[map(q{j})] c{j}", "kexpr": f"[owned_into(tg({200 + j}, ~))] [ref_into(tg({300 + j}, ~))] c{j}"}[it]
+            if self.kind == "nested3":
+                # two levels down, written before the direct members; `inner` has no direct member of its own
+                items.insert(0, "[parent([parent(" + leaf + ")] deep: Deep)] inner: Inner")
+            else:
+                items.append("[parent(" + leaf + ")] inner: Inner")
         # a single bare identifier would be read as the type the instruction is dedicated to (#[parent(Type)]): write the unambiguous spelling
         tail = "," if len(items) == 1 and items[0].isidentifier() else ""
         return "#[parent(" + ", ".join(items) + tail + ")]"
@@ -86,11 +96,13 @@ class ParentCase:
         c = self.c
         def a(path):
             return f'mk("POISON.{path}")' if path == poison else f'mk("S.{path}")'
-        inner = self.kind == "nested"
+        inner = self.kind in ("nested", "nested3")
         nbase = self.nb - 1 if inner else self.nb
         bty = ("Basef" if fall else "Base") if self.kind == "bare" else "Base"
         bf = [f"b{j}: {a(f'base.b{j}')}" for j in range(1, nbase + 1)]
-        if inner:
+        if self.kind == "nested3":
+            bf.append(f"inner: Inner {{ deep: Deep {{ c{self.nb}: {a(f'base.inner.deep.c{self.nb}')} }} }}")
+        elif inner:
             bf.append(f"inner: Inner {{ c{self.nb}: {a(f'base.inner.c{self.nb}')} }}")
         fs = [f"s{j}: {a(f's{j}')}" for j in range(1, self.no + 1)]
         fs.insert(c["ppos"] - 1, f"base: {bty} {{ {', '.join(bf)} }}")
